@@ -4,6 +4,7 @@
 (*   run1/run2: first and second transpile_dir into the same output directory: [ok, tree |-> <<[path, sha]>>, *)
 (*              blamed |-> paths named in the diagnostics, events |-> Read/Write/stage events]                *)
 (*   perms    : direct pipeline calls with every presentation order: [ok, blamed, outs |-> digest per FILE]   *)
+(*   pre      : the output directory was pre-populated with longer stale files at every target path                 *)
 (*   extra    : the same with an unrelated additional file: [ok, outs |-> digest per original file]           *)
 EXTENDS Project, Json, IOUtils
 
@@ -21,6 +22,10 @@ Judge(o) ==
     LET e == Expected(Proj(o)) IN
     IF o.panic THEN "violation:panic"
     ELSE IF o.run1.ok # e.ok THEN "violation:verdict"
+    \* an already populated output directory (o.pre): every target existed with stale content; a failing run must leave it untouched
+    ELSE IF ~e.ok /\ o.pre THEN (IF \A j \in 1..Len(o.run1.tree) : o.run1.tree[j].sha = o.stale_sha THEN
+                                     (IF AsSet(o.run1.blamed) # {SrcPaths[x] : x \in e.blamed} THEN "violation:diagnostics-name-wrong-files" ELSE "ok")
+                                 ELSE "violation:python-written-despite-errors")
     ELSE IF TreePaths(o.run1) # {PyPaths[x] : x \in e.tree} THEN (IF e.ok THEN "violation:layout-not-mirrored" ELSE "violation:python-written-despite-errors")
     ELSE IF ~e.ok /\ AsSet(o.run1.blamed) # {SrcPaths[x] : x \in e.blamed} THEN "violation:diagnostics-name-wrong-files"
     ELSE IF ~WritesAfterAllChecked(o.run1) THEN "violation:write-before-all-files-checked"
